@@ -116,6 +116,8 @@ struct Runner {
   std::string harness_error_msg;
   Failure last_fail;
   bool have_last_fail = false;
+  size_t last_fail_consumed = 0;
+  long shrink_budget = 500;  // evaluations granted to rapidcheck's shrinker after the first failure
   unsigned case_timeout = 120;
 
   void journal(const void *p, size_t n, char kind) {
@@ -173,8 +175,54 @@ struct Runner {
       last_fail.has_tape = true;
       last_fail.r = r;
       have_last_fail = true;
+      last_fail_consumed = std::min(t.i, tape.size());
     }
     return r;
+  }
+  // after rapidcheck's (budgeted) shrinking: drop the unread tail of the tape and try a few more
+  // chunk removals / zeroings in-process, keeping the failure signature
+  void post_shrink() {
+    if (!have_last_fail) return;
+    std::string sig = last_fail.r.sig;
+    auto still = [&](const std::vector<uint8_t> &cand) {
+      Tape t(cand);
+      Result r;
+      prop->fn(t, r);
+      evaluations++;
+      if (!r.ok && r.sig == sig) {
+        last_fail.tape = cand;
+        last_fail.tape.resize(std::min(t.i, cand.size()));
+        last_fail.r = r;
+        return true;
+      }
+      return false;
+    };
+    std::vector<uint8_t> cur = last_fail.tape;
+    cur.resize(std::min(last_fail_consumed, cur.size()));
+    if (!still(cur)) return;  // keeps the rapidcheck result
+    int budget = 400;
+    for (size_t chunk = std::max<size_t>(last_fail.tape.size() / 2, 1); budget > 0; chunk /= 2) {
+      for (size_t start = 0; start + chunk <= last_fail.tape.size() && budget > 0;) {
+        std::vector<uint8_t> c(last_fail.tape.begin(), last_fail.tape.begin() + (long)start);
+        c.insert(c.end(), last_fail.tape.begin() + (long)(start + chunk), last_fail.tape.end());
+        budget--;
+        if (!still(c)) start += chunk;
+      }
+      if (chunk <= 1) break;
+    }
+    for (size_t i = 0; i < last_fail.tape.size() && budget > 0; i++) {
+      if (last_fail.tape[i] == 0) continue;
+      std::vector<uint8_t> c = last_fail.tape;
+      c[i] = 0;
+      budget--;
+      if (still(c)) continue;
+      if (last_fail.tape[i] > 1) {
+        c = last_fail.tape;
+        c[i] = (uint8_t)(c[i] / 2);
+        budget--;
+        still(c);
+      }
+    }
   }
   // for enumerators that build cases directly (journal_text identifies the case)
   void record(const Result &r) {
@@ -245,6 +293,7 @@ inline void on_alarm(int) {
 
 inline int rc_body(const unsigned char *p, unsigned long n, void *ctx) {
   Runner *r = (Runner *)ctx;
+  if (r->have_last_fail && r->shrink_budget-- <= 0) return 0;  // stop rapidcheck's shrinker
   std::vector<uint8_t> tape(p, p + n);
   Result res = r->run_tape(tape);
   if (res.harness_error) return 1;  // stop; main reports exit 2
@@ -469,7 +518,10 @@ inline int harness_main(int argc, char **argv) {
       fprintf(stderr, "HARNESS-ERROR: %s\n", runner.harness_error_msg.c_str());
       return 2;
     }
-    if (!passed && runner.have_last_fail) runner.failures.push_back(runner.last_fail);
+    if (!passed && runner.have_last_fail) {
+      runner.post_shrink();
+      runner.failures.push_back(runner.last_fail);
+    }
     runner.write_out("rc");
     return runner.failures.empty() ? 0 : 1;
   }
